@@ -444,6 +444,28 @@ def run(ck, F):
                      f'{c["id"]} leaves the pointer member(s) {miss} of {contracts.short(name)} indeterminate: a later read of the link passes '
                      'the null test with a garbage value instead of being refused', loc=c['loc'], fn=c['id'])
 
+    # ---------------------------------------------------------------- nothing is left indeterminate by a constructor
+    import initrule as _initrule
+    R_ind = ck.rule('C14.members-initialised', 'every user-provided constructor of a library class leaves no scalar sub-object of the new object indeterminate -- directly, or inside a member or base whose own default-initialisation does nothing (a util::ref whose default constructor was defaulted): a link that was never set reads as null and is refused, never as a garbage value that passes the null test', floor=200)
+    _SINGULAR = {'ipr::Sequence<': 'a default-constructed Sequence<T>::Iterator is a singular iterator (it may only be assigned to), as the '
+                 'iterator requirements allow; the library never reads one'}
+    for name_, r_ in sorted(F.rec.items()):
+        if not name_.startswith('ipr::') or r_.get('lambda'):
+            continue
+        for m_ in r_['methods']:
+            c_ = F.fn.get(m_['id']) if m_.get('ctor') else None
+            if c_ is None or c_.get('implicit') or c_.get('defaulted') or c_.get('body') is None or c_.get('copy'):
+                continue
+            leaves = _initrule.ctor_leaves(F, c_)
+            pass
+            why = next((w for k_, w in _SINGULAR.items() if name_.startswith(k_) and name_.endswith('::Iterator')), None)
+            if leaves and why:
+                ck.note(f'{contracts.short(name_)}: {why}')
+                leaves = []
+            ck.check(R_ind, contracts.short(contracts.fn_qname(c_['id'])) + '/' + str(len(c_['params'])), not leaves,
+                     f'{c_["id"]} leaves {leaves[:4]} of the {contracts.short(name_)} it constructs indeterminate (no initialiser in the constructor, no default '
+                     'member initialiser, and default-initialisation of that member does nothing)', loc=c_['loc'], fn=c_['id'])
+
     # std::get on the function-declaration variant must be dominated by an index() test
     R6 = ck.rule('C14.variant-access', 'std::get on the parameter-list/mapping variant of a function declaration is reached only '
                  'under the matching index() test', floor=3)
